@@ -777,6 +777,55 @@ def _repeat_task(task, p):
     p.sample(sub, {"op": name, "calls": 3, "backends": ["numpy", "dask", "float64 numpy"]})
 
 
+def _coords_task(task, p):
+    """Cubes that carry non-index coordinates (a scalar spatial_ref, a 2-d lon, a label per row - none depending on
+    time): whatever the operation does with them, it does the same in every dimension order and for in-memory and
+    dask-backed data (same coordinate names on the result, same values)."""
+    name = task
+    sub = "aux_coordinates"
+    da, O = operations()
+    f = O[name]
+    Y, X = da.sizes["y"], da.sizes["x"]
+    dac = da.assign_coords(spatial_ref=0, lon=(("y", "x"), np.arange(Y * X, dtype="float64").reshape(Y, X) / 8), row=("y", ["a", "b", "c"]))
+
+    def coords_of(r):
+        out = {}
+        import xarray as xr
+        items = {k: r[k] for k in r.data_vars} if isinstance(r, xr.Dataset) else {"_": r}
+        for k, v in items.items():
+            out[k] = {c: np.asarray(v[c].transpose(*[d for d in ("y", "x") if d in v[c].dims], ...).values).tolist() for c in v.coords if "time" not in v[c].dims}
+        return out
+
+    ref = None
+    n = 0
+    with warnings.catch_warnings():
+        warnings.simplefilter("ignore")
+        for order in (("y", "x", "time"), ("time", "y", "x"), ("y", "time", "x")):
+            for backend in ("numpy", "dask"):
+                obj = dac.transpose(*order)
+                if backend == "dask":
+                    obj = obj.chunk({"time": -1, "y": (2, 1), "x": (2, 2)})
+                try:
+                    r = f(obj)
+                    if backend == "dask":
+                        r = r.compute()
+                    got = coords_of(r)
+                except Exception:
+                    p.count(sub, refused=1)
+                    continue
+                n += 1
+                if ref is None:
+                    ref = (order, backend, got)
+                elif got != ref[2]:
+                    missing = {k: sorted(set(ref[2][k]) - set(got.get(k, {}))) for k in ref[2]}
+                    extra = {k: sorted(set(got.get(k, {})) - set(ref[2][k])) for k in ref[2]}
+                    p.violation(sub, {"op": name, "order": list(order), "backend": backend}, {"kind": "coords", "op": name},
+                                f"{name}: on the {backend} cube with dims {order} the result's time-independent coordinates differ from those on the {ref[1]} cube "
+                                f"with dims {ref[0]} (missing {missing}, extra {extra}, or different values)")
+    p.count(sub, evaluations=n, states=n, transitions=n, traces_validated_against_impl=n, nontrivial=n)
+    p.sample(sub, {"op": name, "coordinates": ["spatial_ref (scalar)", "lon (y, x)", "row (y)"], "orders": 3, "backends": ["numpy", "dask"]})
+
+
 def _perm_task(task, p):
     """Permuting the pixels of a 2x3 grid permutes the results (each pixel depends only on its own series)."""
     import pandas as pd
@@ -1037,7 +1086,7 @@ def _dispatch(task, p):
 
 def _dispatch_inner(kind, t, p):
     {"lazy_real": _lazy_real_task, "dasksched": _dasksched_task, "config": _config_task, "time_chunk": _time_chunk_task,
-     "perm": _perm_task, "vprange": _vprange_task, "joint": _joint_task, "shape": _shape_task, "repeat": _repeat_task}[kind](t, p)
+     "perm": _perm_task, "vprange": _vprange_task, "joint": _joint_task, "shape": _shape_task, "repeat": _repeat_task, "coords": _coords_task}[kind](t, p)
 
 
 def run(ctx):
@@ -1089,8 +1138,9 @@ def run(ctx):
     tasks += [("joint", nm) for nm in joint_pairs()[1]]
     tasks += [("shape", nm) for nm in names if nm not in ("zonal_mean", "zonal_mean_f64", "whits_sg_p", "whitsvc_lc")]
     tasks += [("repeat", nm) for nm in names]
+    tasks += [("coords", nm) for nm in names if not nm.startswith("zonal")]
     # longest first
-    weight = {"config": 5, "dasksched": 4, "lazy_real": 6, "perm": 3, "time_chunk": 2, "vprange": 1, "joint": 2, "shape": 2, "repeat": 2}
+    weight = {"config": 5, "dasksched": 4, "lazy_real": 6, "perm": 3, "time_chunk": 2, "vprange": 1, "joint": 2, "shape": 2, "repeat": 2, "coords": 1}
     tasks.sort(key=lambda t: -weight[t[0]])
     ctx.pmap(_dispatch, tasks)
     lap("forked_subchecks")
@@ -1129,6 +1179,8 @@ def replay(sub, case, p):
         _shape_task(case["op"], p)
     elif k == "repeat":
         _repeat_task(case["op"], p)
+    elif k == "coords":
+        _coords_task(case["op"], p)
     else:
         vprange_all(_wrap(p))
 
